@@ -29,6 +29,11 @@ pub enum Strategy {
     Replay { list: Vec<String>, pos: usize, fallback: Box<Strategy> },
     /// lowest thread id first (used below a DFS prefix)
     First,
+    /// non-preemptive round robin with forced choices (bounded-preemption search): keep the running thread while it is
+    /// enabled and not *yielding* (a thread that performed `yield_after` scheduling points in a row that were all loads is
+    /// taken to be in a failed wait iteration), otherwise the next enabled thread in cyclic tid order; at step `s` of
+    /// `forced` the given thread is taken instead
+    Np { forced: Vec<(u64, String)>, yield_after: u32, loads: BTreeMap<String, u32>, run_len: u32 },
 }
 
 fn splitmix(s: &mut u64) -> u64 {
@@ -40,9 +45,33 @@ fn splitmix(s: &mut u64) -> u64 {
 }
 
 impl Strategy {
-    fn pick(&mut self, enabled: &[String], current: &Option<String>) -> Option<String> {
+    fn pick(&mut self, enabled: &[String], current: &Option<String>, step: u64) -> Option<String> {
         match self {
             Strategy::First => enabled.first().cloned(),
+            Strategy::Np { forced, yield_after, loads, run_len } => {
+                if let Some((_, t)) = forced.iter().find(|(s, _)| *s == step) {
+                    *run_len = 0;
+                    return if enabled.contains(t) { Some(t.clone()) } else { None };
+                }
+                if let Some(c) = current {
+                    // fairness: a failed wait iteration (loads only) or a long uninterrupted run (a wait loop that also
+                    // signals, like `drain` under the blocking strategy) hands over to the next thread
+                    let yielding = loads.get(c).copied().unwrap_or(0) >= *yield_after || *run_len >= 4 * *yield_after + 8;
+                    if enabled.contains(c) && !(yielding && enabled.len() > 1) {
+                        *run_len += 1;
+                        return Some(c.clone());
+                    }
+                    *run_len = 0;
+                    if yielding {
+                        loads.insert(c.clone(), 0);
+                    }
+                    // next enabled thread after `c` in cyclic order
+                    if let Some(n) = enabled.iter().find(|t| t.as_str() > c.as_str()) {
+                        return Some(n.clone());
+                    }
+                }
+                enabled.first().cloned()
+            }
             Strategy::Random { state, stick } => {
                 if let Some(c) = current {
                     if enabled.contains(c) && (splitmix(state) & 255) < *stick {
@@ -62,7 +91,7 @@ impl Strategy {
                         None // divergence
                     }
                 } else {
-                    fallback.pick(enabled, current)
+                    fallback.pick(enabled, current, step)
                 }
             }
         }
@@ -205,7 +234,8 @@ impl Sched {
                 return;
             }
             let cur = inner.current.clone();
-            let pick = inner.strategy.pick(&en, &cur);
+            let step = inner.steps;
+            let pick = inner.strategy.pick(&en, &cur, step);
             let u = match pick {
                 Some(u) => u,
                 None => {
@@ -216,6 +246,11 @@ impl Sched {
             };
             inner.steps += 1;
             let p = inner.threads.get(&u).cloned().unwrap();
+            if let Strategy::Np { loads, .. } = &mut inner.strategy {
+                let is_load = matches!(p, Pending::Sync(Ev::Load { .. }) | Pending::Sync(Ev::LoadBool { .. }));
+                let e = loads.entry(u.clone()).or_insert(0);
+                *e = if is_load { *e + 1 } else { 0 };
+            }
             let mut runs = true;
             let text = match &p {
                 Pending::Start => "start".to_string(),
